@@ -945,59 +945,44 @@ theorem FCol.base_refs (s : FCol) : (foldColSettings (s.base.map Flag.setting) n
   simp only [FCol.base, List.mem_append] at hw
   rcases hw with ((((((h' | h') | h') | h') | h') | h') | h') | h' <;> (split at h' <;> simp at h'; subst h'; rfl)
 
-set_option maxHeartbeats 1000000 in
-/-- an integer default at most -/
-theorem FCol.settings_bp_int (s : FCol) (w : Flag) (ws : List Flag) (h : s.flags = w :: ws)
-    (hd : s.props.Pairwise (fun a b => a.1 ≠ b.1)) (h0 : s.dstr = [] ∧ s.dexpr = []) :
-    colOfSettings s.name s.type (foldColSettings ((w :: ws).map Flag.setting) none) = s.bp := by
-  rw [← h, map_setting_flags, fold_prefix_refs, fold_append_props _ _ (FCol.base_no_prop s)]
-  simp only [FCol.base_refs, List.append_nil]
-  obtain ⟨n, t, a, b, c, d, e, ps, dd, rr, ds, de⟩ := s
-  have hdict := dictOf_distinct ps hd
-  simp only at h0
-  obtain ⟨h1, h2⟩ := h0
-  subst h1; subst h2
-  cases dd <;> cases e <;> cases a <;> cases b <;> cases c <;> cases d <;>
-    (simp only [colOfSettings, FCol.bp, hdict]; rfl)
+theorem map_ite1 {α β} (c : Prop) [Decidable c] (x : α) (f : α → β) : (if c then [x] else []).map f = if c then [f x] else [] := by
+  split <;> rfl
+theorem map_ite0 {α β} (c : Prop) [Decidable c] (x : α) (f : α → β) : (if c then [] else [x]).map f = if c then [] else [f x] := by
+  split <;> rfl
+theorem foldl_ite1 {α β} (c : Prop) [Decidable c] (x : α) (f : β → α → β) (a : β) : (if c then [x] else []).foldl f a = if c then f a x else a := by
+  split <;> rfl
+theorem foldl_ite0 {α β} (c : Prop) [Decidable c] (x : α) (f : β → α → β) (a : β) : (if c then [] else [x]).foldl f a = if c then a else f a x := by
+  split <;> rfl
+theorem any_ite1 {α} (c : Prop) [Decidable c] (x : α) (p : α → Bool) : (if c then [x] else []).any p = (decide c && p x) := by
+  split <;> simp [*]
+theorem any_ite0 {α} (c : Prop) [Decidable c] (x : α) (p : α → Bool) : (if c then [] else [x]).any p = (!decide c && p x) := by
+  split <;> simp [*]
+theorem filterMap_ite1 {α β} (c : Prop) [Decidable c] (x : α) (f : α → Option β) : (if c then [x] else []).filterMap f = if c then (f x).toList else [] := by
+  split <;> simp [List.filterMap_cons]; cases f x <;> rfl
+theorem filterMap_ite0 {α β} (c : Prop) [Decidable c] (x : α) (f : α → Option β) : (if c then [] else [x]).filterMap f = if c then [] else (f x).toList := by
+  split <;> simp [List.filterMap_cons]; cases f x <;> rfl
 
-set_option maxHeartbeats 1000000 in
-/-- a string default at most -/
-theorem FCol.settings_bp_str (s : FCol) (w : Flag) (ws : List Flag) (h : s.flags = w :: ws)
-    (hd : s.props.Pairwise (fun a b => a.1 ≠ b.1)) (h0 : s.dflt = [] ∧ s.dexpr = []) :
-    colOfSettings s.name s.type (foldColSettings ((w :: ws).map Flag.setting) none) = s.bp := by
-  rw [← h, map_setting_flags, fold_prefix_refs, fold_append_props _ _ (FCol.base_no_prop s)]
-  simp only [FCol.base_refs, List.append_nil]
-  obtain ⟨n, t, a, b, c, d, e, ps, dd, rr, ds, de⟩ := s
-  have hdict := dictOf_distinct ps hd
-  simp only at h0
-  obtain ⟨h1, h2⟩ := h0
-  subst h1; subst h2
-  cases ds <;> cases e <;> cases a <;> cases b <;> cases c <;> cases d <;>
-    (simp only [colOfSettings, FCol.bp, hdict]; rfl)
-
-set_option maxHeartbeats 1000000 in
-/-- an expression default at most -/
-theorem FCol.settings_bp_expr (s : FCol) (w : Flag) (ws : List Flag) (h : s.flags = w :: ws)
-    (hd : s.props.Pairwise (fun a b => a.1 ≠ b.1)) (h0 : s.dflt = [] ∧ s.dstr = []) :
-    colOfSettings s.name s.type (foldColSettings ((w :: ws).map Flag.setting) none) = s.bp := by
-  rw [← h, map_setting_flags, fold_prefix_refs, fold_append_props _ _ (FCol.base_no_prop s)]
-  simp only [FCol.base_refs, List.append_nil]
-  obtain ⟨n, t, a, b, c, d, e, ps, dd, rr, ds, de⟩ := s
-  have hdict := dictOf_distinct ps hd
-  simp only at h0
-  obtain ⟨h1, h2⟩ := h0
-  subst h1; subst h2
-  cases de <;> cases e <;> cases a <;> cases b <;> cases c <;> cases d <;>
-    (simp only [colOfSettings, FCol.bp, hdict]; rfl)
+theorem base_fold (s : FCol) :
+    foldColSettings (s.base.map Flag.setting) none
+      = { notNull := s.notNull, pk := s.pk, unique := s.unique, autoinc := s.increment,
+          note := if s.note.isEmpty then none else some s.note,
+          default := if s.dexpr.isEmpty then (if s.dstr.isEmpty then (if s.dflt.isEmpty then none else some (.int s.dflt)) else some (.str s.dstr))
+                     else some (.expr s.dexpr),
+          refs := [], comment := none, props := none } := by
+  unfold foldColSettings FCol.base
+  simp only [List.map_append, map_ite1, map_ite0, List.foldl_append, foldl_ite1, foldl_ite0, List.any_append, any_ite1, any_ite0,
+    List.filterMap_append, filterMap_ite1, filterMap_ite0, Flag.setting]
+  simp
+  cases s.notNull <;> rfl
 
 theorem FCol.settings_bp (s : FCol) (w : Flag) (ws : List Flag) (h : s.flags = w :: ws)
     (hd : s.props.Pairwise (fun a b => a.1 ≠ b.1))
     (hone : (s.dstr = [] ∧ s.dexpr = []) ∨ (s.dflt = [] ∧ s.dexpr = []) ∨ (s.dflt = [] ∧ s.dstr = [])) :
     colOfSettings s.name s.type (foldColSettings ((w :: ws).map Flag.setting) none) = s.bp := by
-  rcases hone with h0 | h0 | h0
-  · exact FCol.settings_bp_int s w ws h hd h0
-  · exact FCol.settings_bp_str s w ws h hd h0
-  · exact FCol.settings_bp_expr s w ws h hd h0
+  rw [← h, map_setting_flags, fold_prefix_refs, fold_append_props _ _ (FCol.base_no_prop s), base_fold]
+  have hdict := dictOf_distinct s.props hd
+  simp only [colOfSettings, FCol.bp, hdict, List.append_nil]
+  rcases hone with ⟨h1, h2⟩ | ⟨h1, h2⟩ | ⟨h1, h2⟩ <;> simp [h1, h2, joinBefore]
 
 theorem FCol.plain_bp (s : FCol) (h : s.flags = []) : plainCol s.name s.type = s.bp := by
   obtain ⟨n, t, a, b, c, d, e, ps, dd, rr, ds, de⟩ := s
